@@ -10,6 +10,7 @@ pub mod c15;
 pub mod c16;
 pub mod c17;
 pub mod c18;
+pub mod c19;
 pub mod c22;
 pub mod c23;
 pub mod c24;
@@ -22,7 +23,7 @@ pub mod queue;
 pub mod sched;
 
 pub fn all() -> Vec<&'static dyn Property> {
-    vec![&c03::C03, &c12::C12, &c13::C13, &c14::C14, &c15::C15, &c16::C16, &c17::C17, &c18::C18, &c22::C22, &c23::C23, &c24::C24, &c25::C25, &c26::C26, &c27::C27, &c28::C28, &c29::C29]
+    vec![&c03::C03, &c12::C12, &c13::C13, &c14::C14, &c15::C15, &c16::C16, &c17::C17, &c18::C18, &c19::C19, &c22::C22, &c23::C23, &c24::C24, &c25::C25, &c26::C26, &c27::C27, &c28::C28, &c29::C29]
 }
 
 pub fn find(id: &str) -> Option<&'static dyn Property> {
